@@ -33,12 +33,20 @@ namespace CallTree
 
 def empty : CallTree := {}
 
+def mkNode (frm : Addr) (to : Option Addr) (data : Bytes) (value gas idx : Nat) (parent : Option Nat) : CallNode :=
+  { frm, to, data, value, gas, index := idx, parent := parent, children := [] }
+
+def pushChild (idx : Nat) (c : CallNode) : CallNode := { c with children := c.children ++ [idx] }
+
+def setResult (l : Nat) (r : Option Bytes) (e : Option String) (n : CallNode) : CallNode :=
+  { n with remGas := l, ret := r, err := e }
+
 /-- tracer.go:426 `add` -/
 def add (t : CallTree) (frm : Addr) (to : Option Addr) (data : Bytes) (value gas : Nat) : CallTree :=
   let idx := t.count
-  let n : CallNode := { frm, to, data, value, gas, index := idx, parent := t.current, children := [] }
+  let n : CallNode := mkNode frm to data value gas idx t.current
   let nodes := match t.current with
-    | some p => t.nodes.modify p (fun c => { c with children := c.children ++ [idx] })
+    | some p => t.nodes.modify p (pushChild idx)
     | none => t.nodes
   { nodes := nodes ++ [n]
     current := some idx
@@ -54,7 +62,7 @@ def exit (t : CallTree) (leftover : Nat) (ret : Option Bytes) (err : Option Stri
     | none => t      -- unreachable under WF (current always denotes an arena node)
     | some n =>
       { t with
-        nodes := t.nodes.modify c (fun n => { n with remGas := leftover, ret := ret, err := err })
+        nodes := t.nodes.modify c (setResult leftover ret err)
         current := n.parent }
 
 def findCall (t : CallTree) (i : Nat) : Option CallNode := t.nodes[i]?
